@@ -181,7 +181,7 @@ func reportCmd(args []string) error {
 	if *tier == "thorough" {
 		n = 40000
 	}
-	flagSets := []string{"", "q", "j", "f", "jf", "qf", "s", "qs", "", "j", "c", "cq", "cj", "cf", "v", "vq", "vs", "cs", "f", "jf"}
+	flagSets := []string{"", "q", "j", "f", "jf", "qf", "s", "qs", "", "j", "c", "cq", "cj", "cf", "v", "vq", "vs", "cs", "f", "jf", "d", "jd", "fd", "qd", "cd"}
 	marker := 0
 	for k := 0; k < n / *nshards; k++ {
 		// ---- generate a spokfile: a dependency chain over the first few names, maybe a task named default
@@ -311,7 +311,7 @@ func reportCmd(args []string) error {
 			}
 			var argv []string
 			for _, f := range v.flags {
-				argv = append(argv, map[rune]string{'q': "--quiet", 'j': "--json", 'f': "--force", 's': "--show", 'v': "--vars", 'c': "--clean"}[f])
+				argv = append(argv, map[rune]string{'q': "--quiet", 'j': "--json", 'f': "--force", 's': "--show", 'v': "--vars", 'c': "--clean", 'd': "--debug"}[f])
 			}
 			for _, q := range v.req {
 				argv = append(argv, rpNames[q])
@@ -341,7 +341,10 @@ func reportCmd(args []string) error {
 			_, hasDefault := byName[3]
 			_, hasClean := byName[2]
 			builtinClean := false
+			usage := quiet && strings.Contains(v.flags, "d") // --debug with --quiet is refused before anything else happens
 			switch {
+			case usage:
+				req = nil
 			case varsL:
 				req = nil
 			case clean && hasClean:
@@ -355,7 +358,10 @@ func reportCmd(args []string) error {
 				req = []int{3}
 			}
 			many := len(req) > 1
-			listing := !varsL && !clean && (show || len(req) == 0)
+			listing := !usage && !varsL && !clean && (show || len(req) == 0)
+			if usage {
+				varsL, clean = false, false
+			}
 			var order []int
 			if len(req) > 0 {
 				var visit func(n int)
